@@ -524,7 +524,7 @@ def replay_plan_transform(order):
 
 
 def unit_registry(ctx):
-    for what in ("multiply_atc_integrals / multiply_atc_integrals_vk (dgemm + pair tables of convolution_collection)", "contract_rad_to_orb / contract_orb_to_rad: iteration-space equality (only the local kernel / index / guard agreement is under contract, unit rad-orb)",
+    for what in ("contract_rad_to_orb / contract_orb_to_rad: iteration-space equality (only the local kernel / index / guard agreement is under contract, unit rad-orb)",
                  "compute_mol_convs_* / compute_pot_convs_*",
                  "LCAOInterpolator._interpolate_nopar_atom and the Python forward / backward chains",
                  "SDMXBasePlan.get_features / get_vxc", "SDMXcontract_ao_to_bas_l1 / _l1_bwd (scratch-buffer pattern outside the supported C subset)",
@@ -534,8 +534,180 @@ def unit_registry(ctx):
     ctx.holds("pairs under contract", len(PAIRS) + len(INPLACE) >= 6, "", [])
 
 
+def unit_atc_adjoint(fn):
+    """multiply_atc_integrals / multiply_atc_integrals_vk (the Gaussian convolution, versions i/j/ij and k): the routine called with fwd = 0 applies the
+    transpose of what it applies with fwd = 1.  Both directions are summarised from the C source (fwd fixed, everything else symbolic); each is one
+    accumulating store  out[O(t)] += ovlp[V(t)] * inp[I(t)]  over iteration tuples t = (output shell, input shell, inner indices).  Obligations, under
+    the struct invariants of atc_basis_set (global_l_loc groups the shells of each atom by degree; assumed — the struct is built by C code not under
+    contract):  the swap  (output shell <-> input shell, inner indices exchanged as the dgemm transposition requires)  maps every forward iteration to a
+    backward iteration with  O_bwd = I_fwd,  I_bwd = O_fwd  and the SAME element of the integral table, and vice versa (bijection of iteration spaces)."""
+    def run(ctx):
+        from contracts import c10
+        from pyvc import intarith
+        rel = "mod_cider/convolutions.c"
+        fq = ["lib/%s:%s" % (rel, fn)]
+        summ = {}
+        for fwd in (1, 0):
+            try:
+                summ[fwd] = c10.summarise(rel, fn, {"fwd": fwd})
+            except CUnsupported as e:
+                ctx.undecided("%s[fwd=%d] summarised" % (fn, fwd), str(e)[:200], fq)
+                return
+        ctx.assume("struct invariants of atc_basis_set P (ccl->atco_inp, ccl->atco_out), assumed: for every atom ia and degree l the shells x with "
+                   "global_l_loc[ia][l] <= x < global_l_loc[ia][l+1] are exactly the shells with bas[x] = (ia, l), and they lie in [0, nbas)")
+
+        def decompose(sy):
+            ws = [e for e in sy.events if e.kind == "w" and e.arr.name == "out_vq"]
+            if len(ws) != 1 or ws[0].op != "+=":
+                return None
+            e = ws[0]
+            val = tm.lift(e.val)
+            subs = list(tm.subterms(val).values())
+            rin = [u for u in subs if u.op == "f" and u.args[0] == "rd:inp_uq"]
+            rov = [u for u in subs if u.op == "f" and u.args[0] == "rd:ccl.ovlp_mats"]
+            sums = [u for u in subs if u.op == "sum"]
+            if len(rin) != 1 or len(rov) != 1 or len(sums) > 1:
+                return None
+            roles = {"jsh": e.par}
+            inner = []
+            for qv, lo, hi, st in e.qvars:
+                if qv is e.par:
+                    continue
+                lo_ = tm.lift(lo)
+                if lo_.op == "fi" and "global_l_loc" in str(lo_.args[0]):
+                    roles["ish"] = qv
+                    roles["ish_rng"] = (lo_, tm.lift(hi))
+                else:
+                    inner.append((qv, tm.lift(lo), tm.lift(hi)))
+            for qv, lo, hi in inner:
+                if any(u.op == "fi" and str(u.args[0]).endswith(".bas") for u in tm.subterms(hi).values()):
+                    roles["m"] = (qv, lo, hi)
+                else:
+                    roles["q"] = (qv, lo, hi)
+            if sums:
+                roles["k"] = (sums[0].args[0], tm.lift(sums[0].args[1]), tm.lift(sums[0].args[2]))
+            if not all(k_ in roles for k_ in ("jsh", "ish", "m", "q")):
+                return None
+            return dict(ev=e, O=tm.lift(e.idx), I=rin[0].args[1], V=rov[0].args[1], roles=roles, assumes=oblig.side_hyps(sy))
+        d = {f: decompose(summ[f][0]) for f in (1, 0)}
+        ctx.holds("%s: each direction is one accumulating store out += ovlp * inp over (output shell, input shell, inner indices)" % fn, d[1] is not None and d[0] is not None, "", fq)
+        if d[1] is None or d[0] is None:
+            return
+
+        def canon_pl(t, sy):
+            """ccl.pair_loc[ia][l] is an array of pointers: its element arrays are named after the index term; rewritten to PL(ia, l)."""
+            m = {}
+            names = {}
+            for e in sy.events:
+                pi = getattr(e.arr, "parent_index", None)
+                if pi is not None:
+                    names[e.arr.name] = pi
+            for u in tm.subterms(t).values():
+                if u.op == "fi" and u.args[0] in names:
+                    m[u] = tm.mk_fn("PL", names[u.args[0]], u.args[1])
+            return tm.substitute(t, m) if m else t
+
+        def basis_terms(P):
+            bas = lambda x, k: tm.mk_fi("ccl.atco_%s.bas" % P, 8 * tm.lift(x) + k) if k else tm.mk_fi("ccl.atco_%s.bas" % P, 8 * tm.lift(x))
+            gl = lambda ia, l: tm.mk_fi("ccl.atco_%s.atc_convs.global_l_loc" % P, tm.mk_fi("ccl.atco_%s.atc_convs.global_l_loc@base" % P, ia) + l)
+            nb = tm.var("ccl.atco_%s.nbas" % P, "I")
+            return bas, gl, nb
+
+        def inv_block(P, x, ia, l):
+            bas, gl, nb = basis_terms(P)
+            return tm.mk_implies(tm.mk_and(tm.mk_le(gl(ia, l), x), tm.mk_lt(x, gl(ia, l + 1))), tm.mk_and(tm.mk_eq(bas(x, 0), ia), tm.mk_eq(bas(x, 1), l), tm.mk_le(tm.ZERO, x), tm.mk_lt(x, nb)))
+
+        def inv_shell(P, x):
+            bas, gl, nb = basis_terms(P)
+            ia, l = bas(x, 0), bas(x, 1)
+            return tm.mk_implies(tm.mk_and(tm.mk_le(tm.ZERO, x), tm.mk_lt(x, nb)), tm.mk_and(tm.mk_le(gl(ia, l), x), tm.mk_lt(x, gl(ia, l + 1)), tm.mk_le(tm.ZERO, ia), tm.mk_le(tm.ZERO, l)))
+        for src, dst in ((1, 0), (0, 1)):
+            a, b = d[src], d[dst]
+            ra, rb = a["roles"], b["roles"]
+            m = {rb["jsh"]: ra["ish"], rb["ish"]: ra["jsh"], rb["m"][0]: ra["m"][0]}
+            if "k" in ra and "k" in rb:
+                m[rb["q"][0]] = ra["k"][0]
+                m[rb["k"][0]] = ra["q"][0]
+            elif "k" not in ra and "k" not in rb:
+                m[rb["q"][0]] = ra["q"][0]
+            else:
+                ctx.undecided("%s inner index structure" % fn, "one direction has a contraction index, the other has not", fq)
+                return
+            sa, sb = summ[src][0], summ[dst][0]
+            sub = lambda t: canon_pl(tm.substitute(canon_pl(tm.lift(t), sb), m), sa)
+            # source iteration: ranges of its loops (and of the contraction index)
+            ea = a["ev"]
+            H = c10.nonneg_hyps(summ[src][1]) + [canon_pl(tm.lift(g), sa) for g in ea.guards] + [canon_pl(h, sa) for h in a["assumes"]] + [sub(h) for h in b["assumes"]]
+            if "k" in ra:
+                H += [tm.mk_le(ra["k"][1], ra["k"][0]), tm.mk_lt(ra["k"][0], ra["k"][2])]
+            # which basis is the output one in the source direction: fwd=1 -> out = atco_out, inp = atco_inp
+            Pout, Pinp = ("out", "inp") if src == 1 else ("inp", "out")
+            bas_o, gl_o, nb_o = basis_terms(Pout)
+            ia, l = bas_o(ra["jsh"], 0), bas_o(ra["jsh"], 1)
+            H += [inv_block(Pinp, ra["ish"], ia, l), inv_shell(Pout, ra["jsh"]), inv_shell(Pinp, ra["ish"])]
+            tag = "%s fwd=%d -> fwd=%d" % (fn, src, dst)
+            goals = [("output element of the other direction = input element of this one", tm.mk_eq(sub(b["O"]), canon_pl(a["I"], sa))),
+                     ("input element of the other direction = output element of this one", tm.mk_eq(sub(b["I"]), canon_pl(a["O"], sa))),
+                     ("the same element of the integral table (ovlp_mats) is used", tm.mk_eq(sub(b["V"]), canon_pl(a["V"], sa)))]
+            eb = b["ev"]
+            for gi, g in enumerate(eb.guards):
+                goals.append(("the swapped tuple lies in the other direction's iteration space (condition %d)" % gi, sub(g)))
+            if "k" in rb:
+                goals.append(("the swapped contraction index is in range", tm.mk_and(tm.mk_le(sub(rb["k"][1]), sub(rb["k"][0])), tm.mk_lt(sub(rb["k"][0]), sub(rb["k"][2])))))
+            r_, env, be = smt.check_sat(H, ctx.timeout)
+            ctx.holds("%s: the hypotheses (an iteration of this direction + struct invariants) are satisfiable (non-vacuity)" % tag, r_ == "sat", "solver says %s" % r_, fq)
+            for label, goal in goals:
+                r_, env, be = intarith.check_sat_int(H + [tm.mk_not(goal)], ctx.timeout)
+                name = "%s: %s" % (tag, label)
+                if r_ == "unsat":
+                    ctx._rec("obligation", name, vc.Verdict("discharged", be), fq)
+                elif r_ == "sat":
+                    ctx._rec("obligation", name, vc.Verdict("refuted", be, "the two directions are not transposes of each other on this iteration", witness=env), fq, replay=replay_atc_adjoint(fn))
+                else:
+                    ctx.undecided(name, "solver: %s" % str(env)[:100], fq)
+        # canary: a wrong row length in the table index must be refuted
+        a, b = d[1], d[0]
+        sa = summ[1][0]
+        H = c10.nonneg_hyps(summ[1][1]) + [canon_pl(tm.lift(g), sa) for g in a["ev"].guards]
+        ctx.canary_valid("%s canary (table index shifted by one)" % fn, H, tm.mk_eq(canon_pl(a["V"], sa), canon_pl(a["V"], sa) + 1))
+    return run
+
+
+def replay_atc_adjoint(fn):
+    """Native: <A x, y> = <x, A^T y> for the real ConvolutionCollection(K) on a small heteronuclear molecule (needs PySCF)."""
+    def replay(wit):
+        from pyvc import native
+        native.install_shim()
+        from ciderpress.dft.lcao_convolutions import ATCBasis, ConvolutionCollection, ConvolutionCollectionK, get_gamma_lists_from_etb_list
+        rng = np.random.RandomState(2)
+        # two different even-tempered bases per atom: input and output sizes differ for every (atom, l)
+        etb_in = [[(0, 5, 0.2, 2.2), (1, 3, 0.3, 2.2)], [(0, 3, 0.25, 2.2), (1, 2, 0.3, 2.2)]]
+        etb_out = [[(0, 4, 0.2, 2.5), (1, 5, 0.3, 2.5)], [(0, 6, 0.25, 2.5), (1, 4, 0.3, 2.5)]]
+        mk = lambda etb: ATCBasis(*get_gamma_lists_from_etb_list(etb))
+        try:
+            ai, ao = mk(etb_in), mk(etb_out)
+        except Exception as e:
+            return {"reproduced": None, "error": "ATCBasis construction: %s" % str(e)[:200]}
+        alphas = 0.05 * 1.8 ** np.arange(4)
+        norms = (np.pi / (2 * alphas)) ** -0.75
+        if fn.endswith("_vk"):
+            ccl = ConvolutionCollectionK(ai, ao, alphas, norms)
+        else:
+            ccl = ConvolutionCollection(ai, ao, alphas, norms, has_vj=True, ifeat_ids=[0])
+        ccl.compute_integrals_()
+        x = rng.rand(ai.nao, ccl.nalpha)
+        y = rng.rand(ao.nao, ccl.nalpha if fn.endswith("_vk") else ccl.num_out)
+        Ax = ccl.multiply_atc_integrals(x, output=np.zeros_like(y), fwd=True)
+        ATy = ccl.multiply_atc_integrals(y, output=np.zeros_like(x), fwd=False)
+        lhs, rhs = float(np.sum(Ax * y)), float(np.sum(x * ATy))
+        return {"reproduced": bool(not np.isfinite(lhs - rhs) or abs(lhs - rhs) > 1e-9 * max(1.0, abs(lhs))), "<Ax,y>": lhs, "<x,A^T y>": rhs}
+    return replay
+
+
 def units():
     u = [("registry", unit_registry)]
+    for fn in ("multiply_atc_integrals", "multiply_atc_integrals_vk"):
+        u.append(("atc-adjoint/" + fn, unit_atc_adjoint(fn)))
     for P in PAIRS:
         u.append(("pair/%s" % P["fwd"], unit_pair(P)))
     for fwd, bwd, tabs in INPLACE:
